@@ -188,8 +188,8 @@ def run(ctx):
                 g = prog.resolve_callable(f, h) if h is not None else None
                 if g is not None:
                     handlers.add(g.name)
-    r.check(set(clearers) <= handlers | {"__init__"}, "%s#clearers(_request_d)" % CONS,
-            "_request_d cleared outside the reply/error handlers: %s" % sorted(set(clearers) - handlers - {"__init__"}),
+    r.check(set(clearers) <= handlers | {"__init__", "stop"}, "%s#clearers(_request_d)" % CONS,
+            "_request_d cleared outside the reply/error handlers and stop(): %s" % sorted(set(clearers) - handlers - {"__init__", "stop"}),
             facts=clearers)
     # _retry_call armed only when none pending
     for f, kind, node in prog.attr_accesses(ci, "_retry_call", False):
